@@ -29,6 +29,7 @@ func keepFields(r M, s fieldSet) M {
 type Projection struct {
 	SkipPreamble bool // the property does not judge startup/auth/parameters (preamble rule)
 	Global       bool // keep the "global parameter map after the run" event
+	Intact       bool // keep the "everything retained is intact" event
 	Recv    map[string]fieldSet // per backend message type; "*" = default
 	Cb      map[string]fieldSet // per callback name; "*" = default
 	CtxKeys fieldSet            // which keys of a callback's ctx record are kept (nil = all)
@@ -104,6 +105,9 @@ var Projections = map[string]*Projection{
 	// transcript identity under segmentation: kinds, row/field counts, tags, SQLSTATE, callbacks with results
 	"C03": {SkipPreamble: true, Recv: map[string]fieldSet{"*": kinds, "C": fs("tag"), "D": fs("n", "rawdig"), "T": fs("n", "names"), "E": fs("code", "msg"), "G": fs("fmt", "n")},
 		Cb: map[string]fieldSet{"*": fs("q", "def", "si", "ret", "written", "dig", "params")}},
+	// retention: only whether everything handed to callbacks so far is intact
+	"C18": {Intact: true, Recv: map[string]fieldSet{"*": kinds},
+		Cb: map[string]fieldSet{"*": fs("q", "def", "intact", "ret")}},
 	"C20": {SkipPreamble: true, Recv: map[string]fieldSet{"*": kinds, "t": fs("n", "wf")},
 		Cb: map[string]fieldSet{"*": fs("q", "def")}},
 	"C09": {SkipPreamble: true, Recv: map[string]fieldSet{"*": kinds, "T": fs("n", "oids", "fmts"), "D": fs("n", "cells")},
